@@ -28,7 +28,7 @@ ASSUMPTIONS = ["dependent formulas use total functions; ill-conditioned or >1e12
                "the library reports it as an undefined dependency, which the property allows)"]
 REQUIRED = {'depth>=2-nontopological': 150, 'diamond': 100, 'numbered-feeds-dependent': 40, 'cycle': 100,
             'dangling': 50, 'mode/grader': 300, 'mode/gss': 300, 'shadowed-constant': 30, 'vector': 50,
-            'numbered-vs-named': 30}
+            'numbered-vs-named': 30, 'unsampled-key-in-sample_from': 100}
 
 FUNCS = ['sin', 'cos', 'sqrt', 'abs', 'arctan', 'f', 'g']
 LIBF = dict(FormulaGrader.default_functions)
@@ -249,6 +249,12 @@ def judge(spec, rec):
             # a constant with the same name as a declared variable is shadowed by the variable
             constants[names[0]] = 99.0
             rec.cls('shadowed-constant')
+        if spec['seed'] % 2 == 0:
+            # sample_from may hold entries for names that are not sampled symbols (graders keep the base names of
+            # numbered variables there); a constant of that name is NOT shadowed and must stay in every sample
+            sf = dict(sf)
+            sf['c0'] = RealInterval([50, 51])
+            rec.cls('unsampled-key-in-sample_from')
         set_seed(spec['seed'])
         with watchdog(10):
             kind, out = call(gen_symbols_samples, symbols, spec['samples'], sf, LIBF, {'%': 0.01}, constants)
@@ -276,8 +282,13 @@ def judge(spec, rec):
                     allnum = sorted(set(allnum) | {'a_{1}'})
         scal = [nd['name'] for nd in spec['nodes'] if nd['kind'] != 'vec']
         student = '+'.join(student_terms + scal[:1]) if (student_terms or scal) else '1'
+        uconst = {'c0': 42.0}
+        if spec['numbered']:
+            # a constant named like the numbered-variable base name: no variable shadows it, it must be available
+            uconst['a'] = 2.5
+            params.append('a')
         cfg = dict(answers={'comparer_params': params, 'comparer': make_recorder(sink)}, variables=variables,
-                   sample_from=sample_from, samples=spec['samples'], user_constants={'c0': 42.0},
+                   sample_from=sample_from, samples=spec['samples'], user_constants=uconst,
                    user_functions=X.USER_FUNCS, numbered_vars=['a'] if spec['numbered'] else [])
         kind, g = call(MatrixGrader, **cfg)
         if kind == 'err':
@@ -334,6 +345,8 @@ def judge(spec, rec):
             check_sample(spec, table, sd, None, rec, 'grader sample %d' % k)
             if sd['pi'] != math.pi or sd['c0'] != 42.0:
                 raise Violation('constant-missing', 'constants seen by the comparer: pi=%r c0=%r' % (sd['pi'], sd['c0']))
+            if spec['numbered'] and sd['a'] != 2.5:
+                raise Violation('constant-missing', 'constant a=2.5 (same name as the numbered base) seen as %r' % (sd['a'],))
             for nm in allnum:
                 v = sd[nm]
                 if nm == 'a_{1}' and spec['named_instance']:
